@@ -92,6 +92,28 @@ def t_cond_timeout():
     return res.executions
 
 
+def t_two_waiters_one_timed():
+    """A timed-out waiter must remove its own token, not an equal-looking one of a peer."""
+    def body(s):
+        cv = vt.Condition()
+        got = []
+
+        def waiter(t):
+            with cv:
+                got.append((t, cv.wait(t)))
+        a = vt.Thread(target=waiter, args=(None,))
+        b = vt.Thread(target=waiter, args=(5.0,))
+        a.start(); b.start()
+        s.quiesce(); s.advance(6.0); s.quiesce()
+        with cv:
+            cv.notify_all()
+        a.join(); b.join()
+        return sorted(got, key=repr)
+    seen, res = outcomes(body, 0)
+    assert list(seen) == [("ok", "[(5.0, False), (None, True)]")], seen
+    return res.executions
+
+
 def t_replay_deterministic():
     def body(s):
         order = []
@@ -120,7 +142,8 @@ def t_replay_deterministic():
 
 def main():
     n = 0
-    for f in (t_lost_update, t_mutex, t_deadlock, t_cond_timeout, t_replay_deterministic):
+    for f in (t_lost_update, t_mutex, t_deadlock, t_cond_timeout, t_two_waiters_one_timed,
+              t_replay_deterministic):
         k = f()
         n += k
         print("selftest %s ok (%d executions)" % (f.__name__, k))
